@@ -253,6 +253,10 @@ def run(repo: Repo, rep: Report, tier: str) -> None:
     _borrow17(repo, rep, "C01", "C01-R10", "C17-R6", "library functions written with `cond : <constant expression>` return that constant: an inlined literal output is not a copy-count output",
               select=lambda o: "only when the output value stays a signal" in o.construct, floor=2)
 
+    # ---------------- R7 ---------------------------------------------------------------
+    _borrow17(repo, rep, "C11", "C11-R2", "C17-R7", "library functions called with constant arguments are folded with run-time arithmetic: the bit helpers rely on `1 << pos` for every "
+              "pos in 0..31", select=lambda o: "folds '<<'" in o.construct or "folds '>>'" in o.construct or "folds 'AND'" in o.construct or "folds 'OR'" in o.construct or "folds 'XOR'" in o.construct, floor=4)
+
 
 
 def _split_entries(s: str) -> list[str]:
